@@ -70,6 +70,9 @@ Definition scr_ok (s : screen) (h w : nat) : Prop :=
 Lemma scr_ok_mk : forall h w g pl cu f, gdims g h w -> scr_ok (mkscreen h w g pl cu f false) h w.
 Proof. intros. unfold scr_ok. simpl. auto. Qed.
 
+Lemma scr_ok_mk' : forall h w g pl cu f e, e = false -> gdims g h w -> scr_ok (mkscreen h w g pl cu f e) h w.
+Proof. intros. subst. unfold scr_ok. simpl. auto. Qed.
+
 Lemma exec_char_at : forall o s h w r c ch,
   scr_ok s h w -> cur s = (r, c) -> r < h -> (cw o ch = 1 \/ cw o ch = 2) -> c + cw o ch <= w ->
   exec o s (CChar ch) =
